@@ -1076,6 +1076,8 @@ class Interp:
             return a
         if op == "Add" and a == ("int", 0):
             return b
+        if op == "Sub" and a == b and a[0] == "term":
+            return ("int", 0)
         if a[0] in ("int", "term") and b[0] in ("int", "term"):
             if op in ("BitAnd", "BitOr") and ty == "bool":
                 return ("term", (op.lower(), a, b))
